@@ -266,6 +266,83 @@ def check_model(run, ir, sm, split):
     run.ok(key)
 
 
+# ------------------------------------------------------------------------------------------------ linear solver path (lstsq): every date
+LIN_MODELS = {
+    # name: (source, assign, measurement/transition equations as text, shocks)
+    "lin_drift_m": ("!transition-variables\n  l, g\n!transition-shocks\n  el, eg\n!parameters\n  rho, c\n!transition-equations\n  l = l[-1] + g + el;\n  g = rho*g[-1] + c + eg;\n"
+                    "!measurement-variables\n  ol, o2\n!measurement-equations\n  ol = l;\n  o2 = 2*l + g + 1;\n",
+                    dict(rho=0.5, c=0.1), ("l = l[-1] + g + el", "g = rho*g[-1] + c + eg", "ol = l", "o2 = 2*l + g + 1"), ("el", "eg")),
+    "lin_stat_m": ("!transition-variables\n  p, y\n!transition-shocks\n  ep, ey\n!parameters\n  b, k, rho\n!transition-equations\n  p = b*p[+1] + k*(y - 1) + 0.2 + ep;\n"
+                   "  y = 1 + rho*(y[-1] - 1) + ey;\n!measurement-variables\n  op\n!measurement-equations\n  op = 2*p + 0.5*y[-1];\n",
+                   dict(b=0.9, k=0.25, rho=0.8), ("p = b*p[+1] + k*(y - 1) + 0.2 + ep", "y = 1 + rho*(y[-1] - 1) + ey", "op = 2*p + 0.5*y[-1]"), ("ep", "ey")),
+}
+
+
+def _lin_solve(ir, name):
+    src, assign, eqs, shocks = LIN_MODELS[name]
+    with contextlib.redirect_stdout(io.StringIO()):
+        m = ir.Simultaneous.from_string(src, linear=True)
+        m.assign(**assign)
+        m.steady()
+    lv = {k: float(v) for k, v in m.get_steady_levels().items() if isinstance(v, (int, float, np.floating))}
+    ch = {k: float(v) for k, v in m.get_steady_changes().items() if isinstance(v, (int, float, np.floating))}
+    return m, lv, ch, assign, eqs, shocks
+
+
+def check_linear_path(run, ir, name):
+    """linear=True models are solved in closed form (lstsq): nothing to lift.  The claim 'the equations hold at EVERY date' is decided by z3
+    on the reported numbers with the date t a real symbol: residual_e(level + change*(t+shift)) within 1e-7 for all |t| <= 50."""
+    key = f"linear_path:{name}"
+    case = dict(kind="linear_path", model=name)
+    m, lv, ch, params, eqs, shocks = _lin_solve(ir, name)
+    t = S.sym("t", 1)
+
+    def lookup(nm, sh):
+        if nm in shocks:
+            return S.const(0)
+        if nm in params:
+            return S.const(S.float_fraction(float(params[nm])))
+        return S.const(S.float_fraction(lv[nm])) + S.const(S.float_fraction(ch.get(nm, 0.0))) * (t + sh)
+    claims = []
+    for src in eqs:
+        r = Equation(src).residual(lookup, steady=True, numeric=lambda v: v)
+        claims.append((src, S.const(r).t))
+    dom = [t.t >= -50, t.t <= 50]
+    tol = Fraction(1, 10 ** 7)
+    run.reach_ok += 1
+    res, mdl = run.check_sat(dom + [z3.Or(*[z3.Or(c > tol, c < -tol) for _, c in claims])], timeout_ms=30000)
+    if res == "unsat":
+        if len(run.samples) < 12:
+            run.samples.append({"obligation": key, "verdict": "unsat: every equation holds (1e-7) on the reported steady path at every real date in [-50, 50]", "example": str(z3.simplify(claims[-1][1]))[:160]})
+        run.ok(key)
+    elif res == "sat":
+        tv = mdl.eval(t.t, model_completion=True)
+        tf = Fraction(tv.numerator_as_long(), tv.denominator_as_long())
+        bad = [(src, float(Fraction(mdl.eval(c, model_completion=True).numerator_as_long(), mdl.eval(c, model_completion=True).denominator_as_long()))) for src, c in claims]
+        bad = [b for b in bad if abs(b[1]) > tol]
+        run.counterexample(key, f"steady:linear:{name}", f"at date t={float(tf)} the steady path violates {bad[:3]}", dict(case, t=[tf.numerator, tf.denominator]))
+    else:
+        run.unknown(key, f"solver {res}")
+
+
+def _replay_linear_path(ir, case):
+    m, lv, ch, params, eqs, shocks = _lin_solve(ir, case["model"])
+    tf = float(Fraction(*case["t"]))
+    worst, msg = 0.0, "equations hold at that date"
+    for tt in (tf, float(round(tf)), float(round(tf)) + 1.0):
+        def lookup(nm, sh, tt=tt):
+            if nm in shocks:
+                return 0.0
+            if nm in params:
+                return float(params[nm])
+            return lv[nm] + ch.get(nm, 0.0) * (tt + sh)
+        for src in eqs:
+            r = float(Equation(src).residual(lookup, steady=True))
+            if abs(r) > worst:
+                worst, msg = abs(r), f"{src!r} at t={tt}: residual {r!r} on level+change*t (levels {lv}, changes {ch})"
+    return worst > 1e-6, msg
+
+
 def main(run):
     ir = load_irispie()
     run.extra["proxy_selftest_checks"] = npproxy.selftest()
@@ -282,7 +359,7 @@ def main(run):
     run.stubs += ["steadiers.solver_dispatcher.neqs_levenberg -> fresh symbols g + assumption ||eval_func(g)||inf < func_tolerance, success=True "
                   "(success criterion of neqs.levenberg with step_tolerance=inf, norm_order=inf)"]
     run.assumptions += ["cells are mathematical reals", "exp/log of numeric constants are evaluated in floats, hence the claim is |residual| < 2*tolerance given ||f||inf < tolerance", "LOG/EXP uninterpreted with normalising constructors; x**a = EXP(a LOG x)", "denominators in the source equations non-zero"]
-    run.outside += ["that the iteration converges, or to which root", "dates other than t (and t+1 in growth mode)", "scipy_root", "linear models without a steady plan (fords.steadiers, lstsq)", "multiple variants"]
+    run.outside += ["that the iteration converges, or to which root", "dates other than t (and t+1 in growth mode)", "scipy_root", "linear models without a steady plan: only the every-date claim on the reported numbers of two models (fords.steadiers, lstsq not lifted)", "multiple variants"]
     for sm in steady_zoo():
         for split in (True, False):
             if run.tier == "quick" and not split and sm.name in ("stat_nl_swap", "ur_drift"):
@@ -293,12 +370,19 @@ def main(run):
                 run.unknown(f"steady:{sm.name}:split={split}", exc)
             except Exception as exc:
                 run.error(f"steady:{sm.name}:split={split}", exc)
+    for name in LIN_MODELS:
+        try:
+            check_linear_path(run, ir, name)
+        except Exception as exc:
+            run.error(f"linear_path:{name}", exc)
     run.extra["exhaustive"] = True
 
 
 def replay(case):
     """no stub: run the real solve_steady and evaluate the source-level oracle in floats on what the API reports"""
     ir = load_irispie()
+    if case.get("kind") == "linear_path":
+        return _replay_linear_path(ir, case)
     sm = by_name(case["model"])
     m = build(ir, sm)
     plan = make_plan(ir, sm, m)
